@@ -19,12 +19,16 @@ package provisioning
 
 //verif:func (*Service).ApplyPlan(s, ctx, desired, hash) (d, err)
 //verif:assume locksInv(s.pipelineLocks) because "NewService builds pipelineLocks with newPipelineLocks (proved) and only pipelineLocks.Lock (proved to preserve it) touches the map"
+//verif:call[plan-under-lock] (*Service).Plan requires called("(*pipelineLocks).Lock") && count("$result.provisioning.(*pipelineLocks).Lock.0") == 0
+//verif:call[running-check-under-lock] (*Service).isRunning requires called("(*pipelineLocks).Lock") && count("$result.provisioning.(*pipelineLocks).Lock.0") == 0 && succeeded("(*Service).Plan")
 //verif:call[fresh-locked-stopped] (*Service).transactionalImport requires planGuards(hash) && succeeded("(*Service).isRunning") && !result_of("(*Service).isRunning", 0)
 //verif:ensures[import-at-most-once] count("(*Service).transactionalImport") <= 1
 //verif:ensures[unlocks] called("(*pipelineLocks).Lock")
 
 //verif:func (*Service).ApplyPlanLive(s, ctx, desired, hash, allowRestartOnRunning) (d, err)
 //verif:assume locksInv(s.pipelineLocks) because "NewService builds pipelineLocks with newPipelineLocks (proved) and only pipelineLocks.Lock (proved to preserve it) touches the map"
+//verif:call[plan-under-lock] (*Service).Plan requires called("(*pipelineLocks).Lock") && count("$result.provisioning.(*pipelineLocks).Lock.0") == 0
+//verif:call[running-check-under-lock] (*Service).isRunning requires called("(*pipelineLocks).Lock") && count("$result.provisioning.(*pipelineLocks).Lock.0") == 0 && succeeded("(*Service).Plan")
 //verif:call[import-guards] (*Service).transactionalImport requires planGuards(hash) && succeeded("(*Service).isRunning") && (!running || allowRestartOnRunning && succeeded("LifecycleService.StopAndWait"))
 //verif:call[inplace-guards] (*Service).applyInPlace requires planGuards(hash) && running && allowRestartOnRunning && result_of("(Diff).LiveEligible", 0) && succeeded("(*Service).Export")
 //verif:call[stop-guards] LifecycleService.StopAndWait requires planGuards(hash) && running && allowRestartOnRunning
